@@ -262,7 +262,7 @@ Definition dec_header (key_ok : bytes -> bool) (k : ekind) (ts : list token)
       bind (next_bytes 64 st) (fun '(sg, st) =>
       bind (next_uint u32_bound st) (fun '(ps, st) =>
       bind (next_opt_hash (negb (N.eqb ps 0)) st) (fun '(ph, st) =>
-      bind (next_uint u64_bound st) (fun '(sq, st) =>
+      bind (next_uint u32_bound st) (fun '(sq, st) =>
       bind (next_opt_hash (negb (N.eqb sq 0)) st) (fun '(bl, st) =>
       bind (dec_ext k st) (fun '(e, st) =>
       match fst st with
@@ -306,6 +306,6 @@ Definition valid (key_ok : bytes -> bool) (h : header) : bool :=
   && match h_sig h with Some s => len_is 64 s | None => false end
   && N.ltb (h_psize h) u32_bound
   && Bool.eqb (is_some (h_phash h)) (negb (N.eqb (h_psize h) 0)) && opt_len_is 32 (h_phash h)
-  && N.ltb (h_seq h) u64_bound
+  && N.ltb (h_seq h) u32_bound
   && Bool.eqb (is_some (h_backlink h)) (negb (N.eqb (h_seq h) 0)) && opt_len_is 32 (h_backlink h)
   && valid_ext (h_ext h).
